@@ -621,3 +621,81 @@ Proof.
   exists transposed_data, transposed_mask. repeat split; try reflexivity.
   vm_compute. discriminate.
 Qed.
+
+(* ------------------------------------------------------------------------------------------- *)
+(** * attributes as Python objects: only the truth value of the flag and the items of the labels are used *)
+
+Lemma wf_with_folded : forall {num} b (s : spectrum num), wf_spectrum (with_folded b s) = wf_spectrum s.
+Proof. intros num b [sh d m f l e]. reflexivity. Qed.
+
+Lemma canon_folded : forall {num} (o : spectrum_obj num), sp_folded (canon o) = truthy (so_folded o).
+Proof. reflexivity. Qed.
+
+(** the canonical form does not depend on the TYPE of the flag object nor on the label container *)
+Theorem canon_type_independent : forall {num} (s : spectrum num) f f' k k',
+  truthy f = truthy f' -> canon (mkObj s f k) = canon (mkObj s f' k').
+Proof. intros num s f f' k k' H. unfold canon. cbn [so_folded so_spec]. rewrite H. reflexivity. Qed.
+
+(** ... hence neither does the file *)
+Theorem file_type_independent :
+  forall (num : Type) (fmt : nat -> num -> string) p comments fmi (s : spectrum num) f f' k k',
+    truthy f = truthy f' ->
+    to_file_obj fmt p comments fmi (mkObj s f k) = to_file_obj fmt p comments fmi (mkObj s f' k').
+Proof. intros. unfold to_file_obj. rewrite (canon_type_independent s f f' k k') by assumption. reflexivity. Qed.
+
+(** the file round trip of an object returns its canonical form (current and pre-1.3 format), whatever Python
+    object the flag is and whatever container holds the labels *)
+Theorem roundtrip_obj :
+  forall (num : Type) (fmt : nat -> num -> string) (parse : string -> num) (round : nat -> num -> num),
+    (forall p x, parse (fmt p x) = round p x) -> (forall p x, tok_ok (fmt p x) = true) ->
+  forall p comments mc fmi (o : spectrum_obj num),
+    wf_spectrum (so_spec o) = true -> Forall (fun c => comment_ok c = true) comments ->
+    from_file parse mc (to_file_obj fmt p comments fmi o)
+    = Some (map strip comments, (if fmi then after_file else after_old_file) round p mc (canon o)).
+Proof.
+  intros num fmt parse round Hpf Htok p comments mc fmi o Hwf Hc.
+  assert (Hwf' : wf_spectrum (canon o) = true) by (unfold canon; rewrite wf_with_folded; exact Hwf).
+  unfold to_file_obj.
+  destruct fmi; [apply (roundtrip fmt parse round Hpf Htok) | apply (roundtrip_old_format fmt parse round Hpf Htok)]; assumption.
+Qed.
+
+(** the folding status read back is bool(flag) *)
+Theorem roundtrip_obj_folded :
+  forall (num : Type) (fmt : nat -> num -> string) (parse : string -> num) (round : nat -> num -> num),
+    (forall p x, parse (fmt p x) = round p x) -> (forall p x, tok_ok (fmt p x) = true) ->
+  forall p comments mc (o : spectrum_obj num),
+    wf_spectrum (so_spec o) = true -> Forall (fun c => comment_ok c = true) comments ->
+    option_map (fun r => sp_folded (snd r)) (from_file parse mc (to_file_obj fmt p comments true o))
+    = Some (truthy (so_folded o)).
+Proof.
+  intros num fmt parse round Hpf Htok p comments mc o Hwf Hc.
+  rewrite (roundtrip_obj num fmt parse round Hpf Htok p comments mc true o Hwf Hc). reflexivity.
+Qed.
+
+(** the pickle round trip returns the object itself: flag object and label container included *)
+Theorem pickle_roundtrip_obj : forall (num : Type) (o : spectrum_obj num),
+  length (sp_data (so_spec o)) = nprod (sp_shape (so_spec o)) ->
+  length (sp_mask (so_spec o)) = nprod (sp_shape (so_spec o)) ->
+  labels_len_ok (sp_shape (so_spec o)) (sp_labels (so_spec o)) = true ->
+  sp_folded (so_spec o) = truthy (so_folded o) ->
+  spectrum_unpickler_obj (spectrum_pickler_obj o) = Some o.
+Proof.
+  intros num [[sh data mask f labels ex] flag k] Hd Hm Hl Hf. cbn in *.
+  unfold mk_spectrum. cbn [a_flat a_shape].
+  rewrite Hd, Nat.eqb_refl. cbn [negb]. rewrite Hm, Nat.eqb_refl, Hl. cbn [option_map]. rewrite <- Hf. reflexivity.
+Qed.
+
+(** ** a writer that tests [self.folded is True] instead of the truth value is NOT a round trip: a folded 2x2
+    spectrum whose flag is a numpy.bool_ (e.g. the result of numpy.all) comes back unfolded *)
+Definition npbool_witness : spectrum_obj tnum :=
+  mkObj (mkSpec [2; 2] [Fin 1; Fin 2; Fin 3; Fin 0] [true; false; false; true] true None None) (NpBool true) SeqList.
+
+Theorem identity_test_writer_refuted :
+  exists o : spectrum_obj tnum,
+    wf_spectrum (so_spec o) = true /\ sp_folded (so_spec o) = truthy (so_folded o) /\ truthy (so_folded o) = true /\
+    from_file tn_parse false (to_file_identity_test tn_fmt 17 [] true o)
+    <> Some ([], after_file tn_round 17 false (canon o)).
+Proof.
+  exists npbool_witness. repeat split; try reflexivity.
+  vm_compute. discriminate.
+Qed.
